@@ -43,9 +43,14 @@ def accumulator_templates(F):
 
         def gen(fields, vec=vecs[0], u16s=tuple(u16s), bools=tuple(bools)):
             lv = fields[vec]
-            if not (isinstance(lv, Agg) and lv.fields and isinstance(lv.fields[0], IntV)):
+            if isinstance(lv, SymV):
+                # a Vec known only as a symbol: its length under the name the heapless summaries use
+                from poly import sym_int as _sym_int
+                ln = _sym_int("len(%s)" % lv.name, F.pointer_bits, False)
+            elif isinstance(lv, Agg) and lv.fields and isinstance(lv.fields[0], IntV):
+                ln = lv.fields[0].poly()
+            else:
                 return []
-            ln = lv.fields[0].poly()
             guards = [None]
             for b in bools:
                 bv = fields[b]
@@ -73,9 +78,9 @@ def accumulator_templates(F):
     return out
 
 
-def run_draw(R, F, rec, q, m, assume=None, args=None, no_merge=False, struct_inv=False):
+def run_draw(R, F, rec, q, m, assume=None, args=None, no_merge=False, struct_inv=False, extra_abstract=()):
     ex = R.executor(F)
-    ex.abstract_defs = {abstract_wc(F)["id"]}
+    ex.abstract_defs = {abstract_wc(F)["id"]} | set(extra_abstract)
     ex.no_merge = no_merge
     g = C.Geo(q, m)
     # template invariants P_win: an accumulator that only ever holds sanitised coordinates stays
